@@ -89,9 +89,17 @@ def w_yxt(w, cfg):
 
 
 def w_grp(w, cfg):
+    """Numba's default argsort / sort is not stable: when the kernel orders by a key with ties, the evaluation is repeated with
+    the ties in reverse order (one admissible outcome of an unstable sort) and the same claims are decided again."""
+    if _w_grp(w, cfg, "stable", ""):
+        _w_grp(w, cfg, "reversed", "[unstable sort: ties reversed]")
+
+
+def _w_grp(w, cfg, ties, sfx):
     groups, missing = cfg["groups"], cfg["missing"]
     T = len(groups)
     it = P.new_interp()
+    it.unstable_ties = ties
     it.assume_casts_in_range = True
     px = P.SpiPixel(T, missing)
     nd = z3.Int("nd")
@@ -120,15 +128,16 @@ def w_grp(w, cfg):
     def conc(m):
         return {"entry": "grp", "pixels": [[C.model_value(m, c) for c in cells]], "nodata": C.model_value(m, nd), "groups": groups, "cal": cal}
     for k, ob in enumerate(kernel_obs):
-        w.discharge(f"gammastd_grp.float_divergence[{k}]@{ob.where}", assume, ob.claim, guard=ob.guard, concretize=conc)
+        w.discharge(f"gammastd_grp.float_divergence[{k}]@{ob.where}{sfx}", assume, ob.claim, guard=ob.guard, concretize=conc)
     for g in range(ng):
         sub = [cells[i] for i in members[g]]
         ref = ref_scaled(it, st, sub, nd, cal[g][0], cal[g][1])
         lem = list(it.A.lemmas)
         for k, i in enumerate(members[g]):
-            w.discharge(f"gammastd_grp.written[{i}]", assume, written[i], lemmas=lem, concretize=conc)
-            discharge_split(w, f"gammastd_grp.group{g}[{i}]", assume, eq(got[i], ref[k]), V.to_real(ref[k]) == z3.ToReal(nd), lemmas=lem,
+            w.discharge(f"gammastd_grp.written[{i}]{sfx}", assume, written[i], lemmas=lem, concretize=conc)
+            discharge_split(w, f"gammastd_grp.group{g}[{i}]{sfx}", assume, eq(got[i], ref[k]), V.to_real(ref[k]) == z3.ToReal(nd), lemmas=lem,
                             concretize=conc, first_timeout_ms=min(w.timeout_ms, 60000))
+    return bool(getattr(it, "unstable_sort_used", False))
 
 
 def worker(w, cfg):
